@@ -5,6 +5,7 @@ go 1.23
 require (
 	github.com/lindb/common v0.0.6
 	github.com/lindb/lindb v0.0.0
+	github.com/lindb/roaring v1.2.1
 	go.uber.org/zap v1.21.0
 )
 
@@ -20,6 +21,7 @@ require (
 	github.com/google/flatbuffers v23.3.3+incompatible // indirect
 	github.com/jedib0t/go-pretty/v6 v6.4.6 // indirect
 	github.com/json-iterator/go v1.1.12 // indirect
+	github.com/klauspost/compress v1.17.1 // indirect
 	github.com/mattn/go-isatty v0.0.19 // indirect
 	github.com/mattn/go-runewidth v0.0.14 // indirect
 	github.com/modern-go/concurrent v0.0.0-20180306012644-bacd9c7ef1dd // indirect
